@@ -457,9 +457,14 @@ def build(suite, info):
                 nontrivial=bool(argv), info=info)
 
 
+PARSERS = {}
+
+
 def classify_real(kind, name, tok):
     """`_parse_optional` of the sub-command's real parser on one token, in the driver's text"""
-    p = D.subparsers()[(kind, name)]
+    if not PARSERS:
+        PARSERS.update(D.subparsers())
+    p = PARSERS[(kind, name)]
     try:
         r = p._parse_optional(tok)
     except CLIError:
@@ -503,7 +508,7 @@ def cases(ctx):
         for t in list(toks) + extra:
             out.append(build("dx_classify", {"kind": kind, "name": name, "tok": t}))
     seen = set()
-    per = 26 if tier == "quick" else 260
+    per = 15 if tier == "quick" else 260
     for (kind, name), parser in sorted(parsers.items()):
         rng = common.sub_rng(seed, "C17x", kind, name)
         pos, opts = D.shape(parser)
